@@ -270,6 +270,9 @@ impl<const M0: u64, const M1: u64, const M2: u64, const M3: u64> ModInt256<M0, M
     // clt MUST be equal to 0 or 0xFFFFFFFF.
     #[inline(always)]
     pub fn set_cond(&mut self, a: &Self, ctl: u32) {
+        // Barrier: prevent the compiler from turning the masking below
+        // into a conditional jump on the (possibly secret) control word.
+        let ctl = core::hint::black_box(ctl);
         for i in 0..8 {
             self.0[i] ^= ctl & (self.0[i] ^ a.0[i]);
         }
@@ -289,6 +292,9 @@ impl<const M0: u64, const M1: u64, const M2: u64, const M3: u64> ModInt256<M0, M
     // ctl MUST be either 0x00000000 or 0xFFFFFFFF.
     #[inline(always)]
     pub fn cswap(a: &mut Self, b: &mut Self, ctl: u32) {
+        // Barrier: prevent the compiler from turning the masking below
+        // into a conditional jump on the (possibly secret) control word.
+        let ctl = core::hint::black_box(ctl);
         for i in 0..8 {
             let t = ctl & (a.0[i] ^ b.0[i]);
             a.0[i] ^= t;
@@ -811,7 +817,7 @@ impl<const M0: u64, const M1: u64, const M2: u64, const M3: u64> ModInt256<M0, M
             for _ in 0..15 {
                 let a_odd = (xa & 1).wrapping_neg();
                 let (_, cc) = subborrow_u32(xa, xb, 0);
-                let swap = a_odd & (cc as u32).wrapping_neg();
+                let swap = core::hint::black_box(a_odd & (cc as u32).wrapping_neg());
                 let t1 = swap & (xa ^ xb);
                 xa ^= t1;
                 xb ^= t1;
@@ -858,7 +864,7 @@ impl<const M0: u64, const M1: u64, const M2: u64, const M3: u64> ModInt256<M0, M
         for _ in 0..30 {
             let a_odd = (xa & 1).wrapping_neg();
             let (_, cc) = subborrow_u32(xa, xb, 0);
-            let swap = a_odd & (cc as u32).wrapping_neg();
+            let swap = core::hint::black_box(a_odd & (cc as u32).wrapping_neg());
             let t1 = swap & (xa ^ xb);
             xa ^= t1;
             xb ^= t1;
@@ -883,7 +889,7 @@ impl<const M0: u64, const M1: u64, const M2: u64, const M3: u64> ModInt256<M0, M
         // case (by convention, we want to return 0 in that case).
         let w = (xb ^ 1) | b.0[1] | b.0[2] | b.0[3]
               | b.0[4] | b.0[5] | b.0[6] | b.0[7];
-        let w = !sgnw(w | w.wrapping_neg());
+        let w = core::hint::black_box(!sgnw(w | w.wrapping_neg()));
         for i in 0..8 {
             self.0[i] &= w;
         }
@@ -1009,7 +1015,7 @@ impl<const M0: u64, const M1: u64, const M2: u64, const M3: u64> ModInt256<M0, M
             for _ in 0..13 {
                 let a_odd = (xa & 1).wrapping_neg();
                 let (_, cc) = subborrow_u32(xa, xb, 0);
-                let swap = a_odd & (cc as u32).wrapping_neg();
+                let swap = core::hint::black_box(a_odd & (cc as u32).wrapping_neg());
                 ls ^= swap & ((xa & xb) >> 1);
                 let t1 = swap & (xa ^ xb);
                 xa ^= t1;
@@ -1039,7 +1045,7 @@ impl<const M0: u64, const M1: u64, const M2: u64, const M3: u64> ModInt256<M0, M
             for _ in 0..2 {
                 let a_odd = (xa & 1).wrapping_neg();
                 let (_, cc) = subborrow_u32(xa, xb, 0);
-                let swap = a_odd & (cc as u32).wrapping_neg();
+                let swap = core::hint::black_box(a_odd & (cc as u32).wrapping_neg());
                 ls ^= swap & ((a0 & b0) >> 1);
                 let t1 = swap & (xa ^ xb);
                 xa ^= t1;
@@ -1084,7 +1090,7 @@ impl<const M0: u64, const M1: u64, const M2: u64, const M3: u64> ModInt256<M0, M
         for _ in 0..30 {
             let a_odd = (xa & 1).wrapping_neg();
             let (_, cc) = subborrow_u32(xa, xb, 0);
-            let swap = a_odd & (cc as u32).wrapping_neg();
+            let swap = core::hint::black_box(a_odd & (cc as u32).wrapping_neg());
             ls ^= swap & ((xa & xb) >> 1);
             let t1 = swap & (xa ^ xb);
             xa ^= t1;
